@@ -23,7 +23,8 @@ MANIFEST = {
     "technique": "machine-checked proof in Coq over regenerated schemas + differential correspondence",
 }
 
-COQ_IMPORTS = ["Coq.Strings.Ascii", "LdkV.Prim.U64", "LdkV.Codec.Combinators", "LdkV.Codec.Tlv", "LdkV.Codec.Wire", "LdkV.Gen.MsgSchemas"]
+COQ_IMPORTS = ["Coq.Strings.Ascii", "LdkV.Prim.U64", "LdkV.Codec.Combinators", "LdkV.Codec.Tlv", "LdkV.Codec.Wire", "LdkV.Gen.MsgSchemas", "LdkV.Gen.WireLens", "LdkV.Codec.Addr"]
+WIRELENS_CFG = os.path.join(os.path.dirname(os.path.abspath(sch.__file__)), "rs2v_configs", "WireLens.json")
 PRELUDE = r"""
 Open Scope Z_scope.
 Definition nib (c : ascii) : Z := let n := Z.of_N (N_of_ascii c) in if n <? 58 then n - 48 else n - 87.
@@ -62,6 +63,18 @@ Definition run (c : list Z * bytes) : string * Z * string :=
         ("Ok"%string, len rest, if beqb e (ztake (len r - len rest) r) then "="%string else hex e)
       end
     end
+  end.
+"""
+
+PRELUDE_FIELDS = r"""
+Definition show_dec (r : rres (Z * bytes)) : string * Z * Z :=
+  match r with ROk (v, rest) => ("Ok"%string, v, len rest) | RErr e => (String.append "Err " e, 0, 0) end.
+Definition show_sa (h : string) : string * string * Z :=
+  let b := unhex h in
+  match sa_dec b with
+  | ROk (inl a, r) => ("Ok"%string, hex (sa_enc a), len b - len r)
+  | ROk (inr t, r) => ("Unknown"%string, hex [t], len b - len r)
+  | RErr e => (String.append "Err " e, EmptyString, 0)
   end.
 """
 
@@ -495,8 +508,104 @@ def compare(cases, impl, model):
 def generate(ctx):
     text, meta = sch.generate(core.REPO)
     core.write_if_changed(os.path.join(core.COQ, "Gen", "MsgSchemas.v"), text)
+    # SocketAddress::len and the two CollectionLength branch conditions, translated by rs2v
+    from rs2v import rs2v as R
+    try:
+        wl_text, wl_meta = R.translate_with_meta(json.load(open(WIRELENS_CFG)), repo=core.REPO, config_dir=os.path.dirname(WIRELENS_CFG))
+    except R.Rs2vError as ex:
+        raise sch.Refused("rs2v refused WireLens (SocketAddress::len / CollectionLength conditions): %s" % ex)
+    core.write_if_changed(os.path.join(core.COQ, "Gen", "WireLens.v"), wl_text)
+    meta["translated_items"] = wl_meta
     ctx.gen_meta = meta
     return meta
+
+
+def field_tier(ctx, okm, release=False):
+    """Field codecs outside a frame (h_wire fields): judged round trips at every length threshold, and
+    CollectionLength / BigSize / SocketAddress encode+decode diffed against the model.
+    Returns (judge failures, model disagreements, counts)."""
+    rc, lines = ctx.run_bin("h_wire", "", args=["fields", str(ctx.seed)], timeout=900, release=release)
+    rows = [l.split() for l in lines if l.startswith("F ")]
+    fails, dis = [], []
+    tag = "release" if release else "debug"
+    if rc != 0 or len(rows) < 100:
+        fails.append({"why": "h_wire fields crashed or produced too few lines (%s build)" % tag, "kind": "fields", "message": "-", "rc": rc, "n": len(rows)})
+        return fails, dis, {}
+    counts = {}
+    cl, cldec, bs, bsdec, sa = [], [], [], [], []
+    for r in rows:
+        counts[r[1]] = counts.get(r[1], 0) + 1
+        if r[1] == "RT":
+            if r[4] != "ok":
+                fails.append({"why": "field codec round trip at a length threshold: %s (%s build)" % (r[4], tag), "kind": "fields", "message": r[2], "param": r[3], "frame": "",
+                              "replay": "h_wire fields %d | grep 'F RT %s %s'" % (ctx.seed, r[2], r[3])})
+        elif "PANIC" in r:
+            fails.append({"why": "field codec panicked (%s build)" % tag, "kind": "fields", "message": r[1], "param": r[2], "frame": ""})
+        elif r[1] == "CL":
+            cl.append((int(r[2]), r[3]))
+        elif r[1] == "BS":
+            bs.append((int(r[2]), r[3]))
+        elif r[1] == "CLDEC":
+            cldec.append(("" if r[2] == "-" else r[2], r[3:]))
+        elif r[1] == "BSDEC":
+            bsdec.append(("" if r[2] == "-" else r[2], r[3:]))
+        elif r[1] == "SA":
+            sa.append(("" if r[2] == "-" else r[2], r[3:]))
+    # implementation-only judge of the integer codecs: decode(encode n) = n, consuming exactly the encoding
+    for name, enc, dec in (("CollectionLength", cl, cldec), ("BigSize", bs, bsdec)):
+        d = dict(dec)
+        for n, h in enc:
+            got = d.get(h)
+            if name == "BigSize":
+                got = d.get(h + "7f")
+                want = ["Ok", str(n), "1"]
+            else:
+                want = ["Ok", str(n), "0"]
+            if got is not None and got != want:
+                fails.append({"why": "%s: encoding of %d decodes as %s (%s build)" % (name, n, " ".join(got), tag), "kind": "fields", "message": name, "param": str(n), "frame": h})
+    if not okm or release:
+        return fails, dis, counts
+    def q(h):
+        return '"%s"%%string' % h
+    exprs = [
+        "map (fun n => hex (cl_enc n)) [%s]" % "; ".join(str(n) for n, _ in cl),
+        "map (fun h => show_dec (cl_dec (unhex h))) [%s]" % "; ".join(q(h) for h, _ in cldec),
+        "map (fun n => hex (bigsize_enc n)) [%s]" % "; ".join(str(n) for n, _ in bs),
+        "map (fun h => show_dec (bigsize_dec (unhex h))) [%s]" % "; ".join(q(h) for h, _ in bsdec),
+        "map show_sa [%s]" % "; ".join(q(h) for h, _ in sa),
+    ]
+    vals = ctx.coq_eval("corr_fields", COQ_IMPORTS, exprs, prelude=PRELUDE + PRELUDE_FIELDS, shards=1, timeout=600)
+    strs = lambda v: re.findall(r'"([0-9a-f]*)"', v)
+    m_cl, m_bs = strs(vals[0]), strs(vals[2])
+    for (n, h), m in zip(cl, m_cl):
+        if h != m:
+            dis.append({"topic": "CollectionLength::write", "n": n, "impl": h, "model": m})
+    for (n, h), m in zip(bs, m_bs):
+        if h != m:
+            dis.append({"topic": "BigSize::write", "n": n, "impl": h, "model": m})
+    rx3 = re.compile(r'\("((?:[^"]|"")*)"(?:%string)?,\s*(-?\d+),\s*(-?\d+)\)')
+    for topic, cases, v in (("CollectionLength::read", cldec, vals[1]), ("BigSize::read", bsdec, vals[3])):
+        found = rx3.findall(v)
+        for (h, impl), (st, val, rem) in zip(cases, found):
+            mm = [st, val, rem] if st == "Ok" else st.split()
+            if impl != mm:
+                dis.append({"topic": topic, "bytes": h, "impl": impl, "model": mm})
+        if len(found) != len(cases):
+            dis.append({"topic": topic, "why": "model output parse"})
+    rxs = re.compile(r'\("((?:[^"]|"")*)"(?:%string)?,\s*"([0-9a-f]*)"(?:%string)?,\s*(-?\d+)\)')
+    found = rxs.findall(vals[4])
+    if len(found) != len(sa):
+        dis.append({"topic": "SocketAddress", "why": "model output parse"})
+    for (h, impl), (st, hx, n) in zip(sa, found):
+        if st == "Ok":
+            mm = ["Ok", hx, n]
+        elif st == "Unknown":
+            mm = ["Unknown", str(int(hx, 16)), n]
+        else:
+            mm = st.split()
+        if impl != mm:
+            dis.append({"topic": "SocketAddress descriptor", "bytes": h, "impl": impl, "model": mm})
+    return fails, dis, counts
 
 
 def run(ctx):
@@ -508,6 +617,7 @@ def run(ctx):
     ctx.trusted_base += [
         "Coq 8.16.1 kernel + vm_compute (no native_compute)",
         "tools/codec/schemas.py: schema extraction from msgs.rs/wire.rs and the fixed Rust-type -> codec table (TYPE_TABLE), regenerated every run",
+        "tools/rs2v translation of SocketAddress::len and of the two CollectionLength branch conditions (Gen/WireLens.v, config tools/codec/rs2v_configs/WireLens.json incl. its three rewrites), regenerated every run",
         "oracle pk_valid (secp256k1 compressed-point validity): universally quantified in the theorems, supplied by the harness in the correspondence",
         "Codec/*.v transliteration of util/ser.rs + ser_macros.rs, tied by functional correspondence through lightning feature _verif_hooks (wire::verif_hooks_wire::wire_read)",
         "hand schemas of ErrorMessage/WarningMessage pinned to the hash of the Rust impl text (tools/codec/hand_hashes.json)",
@@ -525,7 +635,7 @@ def run(ctx):
     proved = False
     okm = False
     if gen_err is None:
-        okm, outm = ctx.coq_make(["Codec/Wire.vo", "Gen/MsgSchemas.vo"])
+        okm, outm = ctx.coq_make(["Codec/Wire.vo", "Gen/MsgSchemas.vo", "Gen/WireLens.vo", "Codec/Addr.vo"])
         if not okm:
             ctx.log(outm[-2000:])
         proved = ctx.prove("C13")
@@ -576,6 +686,28 @@ def run(ctx):
     judged = judge_impl(cases, impl)
     for g in gen_panics:
         judged.append({"why": "encoding/decoding a constructed value panicked", "kind": "gen", "message": g})
+    # ---- field codecs outside a frame, at every length threshold
+    try:
+        f_fails, f_dis, f_counts = field_tier(ctx, okm)
+    except RuntimeError as ex:
+        f_fails, f_dis, f_counts = [], [{"topic": "field tier", "why": "model evaluation failed", "detail": str(ex)[-1500:]}], {}
+    judged += f_fails
+    ctx.coverage["field_tier_lines"] = f_counts
+    if ctx.tier != "quick":
+        # release build: overflow wraps instead of panicking, so a wrong length shows as a failed round trip
+        okr, outr = ctx.build_harness(BINS, release=True)
+        if okr:
+            r_fails, _, r_counts = field_tier(ctx, False, release=True)
+            judged += r_fails
+            rcg, gl = ctx.run_bin("h_wire", "", args=["gen", str(ngen), str(ctx.seed)], release=True)
+            for l in gl:
+                p = l.split()
+                if len(p) == 4 and p[0] == "G" and (p[2] == "PANIC" or p[3] != "1"):
+                    judged.append({"why": "encode(m) does not decode to m in the release build", "kind": "gen-release", "message": p[1], "frame": p[2] if p[2] != "PANIC" else ""})
+            ctx.coverage["field_tier_lines_release"] = r_counts
+        else:
+            ctx.log("release harness build failed; release tier skipped")
+            ctx.coverage["field_tier_lines_release"] = "release build failed"
     # ---- model side
     dis, skipped, model = None, 0, {}
     if okm:
@@ -584,6 +716,8 @@ def run(ctx):
             dis, skipped = compare(cases, impl, model)
         except RuntimeError as ex:
             dis = [{"why": "model evaluation failed", "detail": str(ex)[-1500:]}]
+    if f_dis:
+        dis = (dis or []) + f_dis
     # ---- coverage
     kinds, names, errs = {}, {}, {}
     for c, r in zip(cases, impl):
